@@ -43,7 +43,8 @@ class FaultClf(object):
         self.inner = inner
         self.plan = None          # (pos, kind, burst, mode)
         self.n = 0                # exchanges since arm()
-        self.trace = []           # (command bytes, outcome) outcome: 'A' answered | injected kind letter | 's' simulator silent
+        self.trace = []           # (command bytes, outcome, response) outcome: 'A' answered | injected kind letter (upper
+        #                           case: response lost, lower case: command lost) | 's' simulator silent
         self.delivered = []       # (command bytes, answered) for every command the tag actually received
         self.calls = []           # per tag-level command, filled by hook_commands
         self.limit = limit
@@ -72,22 +73,23 @@ class FaultClf(object):
         cmd = bytes(data)
         if self.plan is not None and self.plan[0] <= i < self.plan[0] + self.plan[2]:
             kind, mode = self.plan[1], self.plan[3]
+            lost = None
             if mode == 'rsp':
                 try:
-                    self.inner.exchange(data, timeout)
+                    lost = bytes(self.inner.exchange(data, timeout))
                 except nfc.clf.CommunicationError:
                     pass
                 self.delivered.append((cmd, False))
-            self.trace.append((cmd, kind))
+            self.trace.append((cmd, kind if mode == 'rsp' else kind.lower(), lost))
             raise KINDS[kind]("injected")
         try:
             rsp = self.inner.exchange(data, timeout)
         except nfc.clf.TimeoutError:
             self.delivered.append((cmd, False))
-            self.trace.append((cmd, 's'))
+            self.trace.append((cmd, 's', None))
             raise
         self.delivered.append((cmd, True))
-        self.trace.append((cmd, 'A'))
+        self.trace.append((cmd, 'A', bytes(rsp)))
         return rsp
 
 
@@ -104,6 +106,7 @@ def hook_commands(tag, clf):
 
     def wrapped(*a, **kw):
         start = len(clf.trace)
+        dstart = len(clf.delivered)
         rec = {'name': name, 'retries': kw.get('retries', 2), 'present': bool(getattr(tag, 'target', True))}
         try:
             r = orig(*a, **kw)
@@ -116,7 +119,9 @@ def hook_commands(tag, clf):
             rec['res'] = ('exc', type(e).__name__)
             raise
         finally:
-            rec['attempts'] = [o for (_c, o) in clf.trace[start:]]
+            rec['attempts'] = [t[1] for t in clf.trace[start:]]
+            rec['first'] = start
+            rec['delivered'] = ''.join('a' if a else 'u' for (_c, a) in clf.delivered[dstart:])
             rec['cmd'] = clf.trace[start][0] if len(clf.trace) > start else b''
             clf.calls.append(rec)
     setattr(tag, name, wrapped)
@@ -397,3 +402,122 @@ def t4_card(ndef=b'', mle=64, mlc=48, mfs=256, wf=0):
     f[0:2] = len(ndef).to_bytes(2, 'big')
     f[2:2 + len(ndef)] = ndef
     return SimT4Card(cc, fid, f)
+
+
+# ----------------------------------------------------------------------------- Mifare Ultralight C
+class UlcSim(T2TSim):
+    """MF0ICU2: 48 pages, 3DES mutual authentication (AUTHENTICATE 1Ah / AFh) with the key held in
+    pages 44..47; the cipher is pyDes (the card is environment, the reader side under test is
+    nfc.tag.tt2_nxp.MifareUltralightC)"""
+    RNDB = bytes.fromhex('A1B2C3D4E5F60718')
+
+    def __init__(self, mem):
+        T2TSim.__init__(self, mem, version=None)
+        assert self.npages == 48
+        self.readonly = set(range(0, 10))
+        self.oneway = set(range(10, 16)) | set(range(160, 164))
+        self.auth_step = None
+        self.authed = False
+
+    def key(self):
+        m = self.mem
+        return bytes(reversed(m[176:184])) + bytes(reversed(m[184:192]))
+
+    def command(self, data):
+        from pyDes import triple_des, CBC
+        data = bytes(data)
+        if self.dead or self.mute:
+            return T2TSim.command(self, data)
+        if data == b'\x1A\x00':
+            self.ncmd += 1
+            self.m1 = triple_des(self.key(), CBC, bytes(8)).encrypt(self.RNDB)
+            self.auth_step = 1
+            return bytearray(b'\xAF' + self.m1)
+        if len(data) == 17 and data[0] == 0xAF:
+            self.ncmd += 1
+            if self.auth_step != 1:
+                self.auth_step = None
+                return bytearray(b'\x00')
+            self.auth_step = None
+            m2 = data[1:17]
+            plain = triple_des(self.key(), CBC, self.m1).decrypt(m2)
+            ra, rb = plain[0:8], plain[8:16]
+            if rb != self.RNDB[1:] + self.RNDB[:1]:
+                self.authed = False
+                return bytearray(b'\x00')
+            self.authed = True
+            self.log.append((-1, b'', b'auth', b'ok'))
+            return bytearray(b'\x00' + triple_des(self.key(), CBC, m2[8:16]).encrypt(ra[1:] + ra[:1]))
+        self.auth_step = None
+        if len(data) == 2 and data[0] == 0x30 and data[1] >= 44 and data[1] < 48:
+            self.ncmd += 1
+            return bytearray(b'\x00')          # the key pages can not be read
+        return T2TSim.command(self, data)
+
+
+class UlcClf(TlvClf):
+    def sense(self, *targets, **kw):
+        self.tag.auth_step = None
+        self.tag.authed = False
+        return TlvClf.sense(self, *targets, **kw)
+
+
+class UlcWorld(TlvWorld):
+    def __init__(self, ndef=b''):
+        mem = t2_memory(48, ndef, size_byte=18)
+        mem[176:192] = b'BREAKMEIFYOUCAN!'
+        mem[168] = 48                      # AUTH0: no page protected
+        self.sim = UlcSim(mem)
+        self.inner = UlcClf(self.sim)
+        self.clf = FaultClf(self.inner)
+        self.tag = nfc.tag.activate(self.clf, self.sim.target())
+        assert type(self.tag).__name__ == 'MifareUltralightC', type(self.tag)
+        hook_commands(self.tag, self.clf)
+        self.w0 = len(self.sim.log)
+
+
+# ----------------------------------------------------------------------------- FeliCa Standard
+class FelicaStandardSim(SimT3Tag):
+    """a FeliCa Standard card (IC code 01h, RC-S915) with one system (12FCh), one area and the two
+    overlapped NDEF services; Request Service / Request Response / Search Service Code / Request
+    System Code are answered in addition to the commands of SimT3Tag"""
+
+    def __init__(self, blocks, **kw):
+        SimT3Tag.__init__(self, blocks, pmm=bytes.fromhex('0101FFFFFFFFFFFF'), **kw)
+        self.listing = [(0x0000, 0xFFFE), (0x0009,), (0x000B,)]
+        self.mode = 0
+
+    def command(self, frame):
+        frame = bytearray(frame)
+        if len(frame) >= 10 and frame[0] == len(frame) and frame[1] in (0x02, 0x04, 0x0A, 0x0C) and frame[2:10] == self.idm:
+            code, body = frame[1], frame[10:]
+            if code == 0x04 and len(body) == 0:
+                rsp = self.idm + bytearray([self.mode])
+            elif code == 0x0C and len(body) == 0:
+                rsp = self.idm + bytearray([1]) + self.sys
+            elif code == 0x0A and len(body) == 2:
+                i = body[0] | body[1] << 8
+                if i < len(self.listing):
+                    rsp = self.idm + b''.join(v.to_bytes(2, 'little') for v in self.listing[i])
+                else:
+                    rsp = self.idm + b'\xff\xff'
+            elif code == 0x02 and len(body) >= 1 and len(body) == 1 + 2 * body[0]:
+                vers = b''
+                for j in range(body[0]):
+                    sc = body[1 + 2 * j] | body[2 + 2 * j] << 8
+                    vers += (b'\x00\x00' if sc in (0x0009, 0x000B, 0x0000) else b'\xff\xff')
+                rsp = self.idm + bytearray([body[0]]) + vers
+            else:
+                return None, None
+            return bytearray([2 + len(rsp), code + 1]) + rsp, None
+        return SimT3Tag.command(self, frame)
+
+
+class FelicaStandardWorld(T3World):
+    def __init__(self, blocks):
+        self.sim = FelicaStandardSim(blocks)
+        self.inner = T3Session(self.sim)
+        self.clf = FaultClf(self.inner)
+        self.tag = nfc.tag.activate(self.clf, self.inner.target())
+        assert type(self.tag) is nfc.tag.tt3_sony.FelicaStandard, type(self.tag)
+        hook_commands(self.tag, self.clf)
